@@ -73,6 +73,8 @@ class ScenarioSpec:
         self.p_detach = 0.0
         self.strip_contracts = False
         self.guard_init = 'random'
+        self.twin = 0.0             # probability that a second, independent interpreter of the SAME statechart is run interleaved
+        self.clock_offset = 0.0     # probability that the scenario's clock starts at a large value (1 700 000 000)
         self.p_long = 0.04          # probability of a long scenario (80-140 operations)
         self.p_burst = 0.03         # per operation: queue a burst of 10-25 events at once
         self.p_mirror = 0.0         # probability that a queued external event copies name and parameters of a pending internal one
@@ -149,6 +151,16 @@ def run_scenario(rng, chart, spec, cases, stats, chart_key, script=None):
                      listener_order=order)
     holder['sc'] = sc
     sc.interp._evaluator._context['g'] = g0
+    twin = None
+    if spec.twin and rng.random() < spec.twin:
+        import pickle
+        from sismic.clock import SimulatedClock
+        from sismic.interpreter import Interpreter
+        twin = Interpreter(pickle.loads(pickle.dumps(chart)), clock=SimulatedClock(), initial_context={'tick': lambda: None})
+        stats['twins'] = stats.get('twins', 0) + 1
+    if spec.clock_offset and rng.random() < spec.clock_offset:
+        sc.clock.time = 1700000000
+        stats['large_clock_scenarios'] = stats.get('large_clock_scenarios', 0) + 1
     n = rng.randint(80, 140) if rng.random() < spec.p_long else rng.randint(*spec.n_ops)
     used = sorted({t.event for t in chart._transitions if t.event})
     import re
@@ -156,6 +168,7 @@ def run_scenario(rng, chart, spec, cases, stats, chart_key, script=None):
                                                            for a in ('on_entry', 'on_exit')]
     templates = sorted({(m.group(1), int(m.group(2))) for c in code for m in re.finditer(r"send\('(\w+)', delay=(\d+)\)", c)})
     dead = False
+    last_post = [None]
     if script is not None:
         from sismic.model import Event
         for op in script:
@@ -184,6 +197,16 @@ def run_scenario(rng, chart, spec, cases, stats, chart_key, script=None):
         r = rng.random()
         if dead:
             break
+        if twin is not None and rng.random() < 0.3:
+            # another interpreter of the same statechart lives in the same process, at other times
+            from sismic.model import Event
+            try:
+                twin.clock.time += rng.choice([0, 1, 4, 9])
+                if rng.random() < 0.6:
+                    twin.queue(Event(rng.choice(used or sx.ALPHABET)))
+                twin.execute_once()
+            except Exception:  # noqa
+                twin = None
         if r < spec.p_clock:
             sc.clock.time += rng.choice([1, 1, 2, 3, 5])
             continue
@@ -221,6 +244,11 @@ def run_scenario(rng, chart, spec, cases, stats, chart_key, script=None):
         else:
             op = ('exec',)
         case = sc.step_case(op)
+        # what only execute_once of THIS interpreter may change must be unchanged since the previous captured operation
+        if last_post[0] is not None:
+            case['discontinuity'] = [f for f in ('time', 'entry', 'idle', 'config', 'memory', 'initialized')
+                                     if case['pre'][f] != last_post[0][f]]
+        last_post[0] = case['post']
         case['chart_key'] = chart_key
         case['scenario'] = sc
         case['prop_charts'] = {id(pi._statechart): pi._statechart for pi in sc.props.values()}
@@ -338,6 +366,19 @@ def generate(prop, tier, seed, profile, spec, n_quick, n_thorough, chart_hook=No
         charts[key] = sx.chart_value(chart)
         run_scenario(rng, chart, spec, cases, stats, key, script=script)
     stats['corpus_cases'] = len(cases)
+    # bounded-exhaustive family: every kinded tree shape up to 4 (quick: a sample) / 5 (thorough: all) states
+    small = genchart.small_charts(rng, 4, 1, limit=45) if tier == 'quick' else genchart.small_charts(rng, 5, 2)
+    for chart in small:
+        if chart_hook:
+            chart_hook(chart, rng)
+        if spec.strip_contracts:
+            strip_contracts(chart)
+        key = 'c%d' % k
+        k += 1
+        charts[key] = sx.chart_value(chart)
+        run_scenario(rng, chart, spec, cases, stats, key)
+    stats['small_family_charts'] = len(small)
+    stats['small_family_cases'] = len(cases) - stats['corpus_cases']
     while len(cases) < target:
         chart = genchart.valid_chart(rng, profile)
         if chart_hook:
